@@ -332,7 +332,12 @@ def _remove_cache_and_update_lock(cache_path=None):
 def _get_hashed_path(hashed_grammar, path, cache_path=None):
     directory = _get_cache_directory_path(cache_path=cache_path)
 
-    file_hash = hashlib.sha256(str(path).encode("utf-8", "surrogatepass")).hexdigest()
+    # str() of an os.PathLike that is not a pathlib.Path (e.g. an os.DirEntry) is
+    # not its path.
+    path = os.fspath(path)
+    if isinstance(path, str):
+        path = path.encode("utf-8", "surrogatepass")
+    file_hash = hashlib.sha256(path).hexdigest()
     return os.path.join(directory, '%s-%s.pkl' % (hashed_grammar, file_hash))
 
 
